@@ -356,10 +356,13 @@ class POP3CommandHandler:
 
         Returns the message number if valid and not deleted, else None.
         """
-        try:
-            n = int(num_str)
-        except ValueError:
+        # NOTE: A message number is a string of decimal digits. `int()` takes
+        #       more than that (`+1`, `1_0`, digits of other scripts) and
+        #       would turn it into the number of some message.
+        #
+        if not (num_str.isascii() and num_str.isdigit()):
             return None
+        n = int(num_str)
         if n < 1 or n > self.msg_count:
             return None
         if n in self.deleted:
